@@ -7,23 +7,24 @@ from . import traces as T
 CONSTS = ["CONSTANTS", '  VmAs = {"a1", "a2"}', '  VmBs = {"b1", "b2"}', '  Gammas = {"g1", "g2"}',
           '  Sites = {"bulk", "dislocations", "grain boundaries", "grain edges", "grain corners"}', '  Gbes = {"e1", "e2"}',
           '  Grains = {"d1", "d2"}', '  Disls = {"r1", "r2"}', '  X0s = {"x1", "x2"}', '  Bulks = {"auto", "n1", "n2"}',
-          '  Shapes = {"sphere", "needle2", "plate3"}']
+          '  Shapes = {"sphere", "needle2", "plate3"}', "  NPs = {1, 2}", "  Starts = {}"]
 SMALL = ["CONSTANTS", '  VmAs = {"a1", "a2"}', '  VmBs = {"b1", "b2"}', '  Gammas = {"g1", "g2"}',
          '  Sites = {"bulk", "dislocations", "grain boundaries", "grain edges", "grain corners"}', '  Gbes = {"e1", "e2"}',
-         '  Grains = {"d1", "d2"}', '  Disls = {"r1"}', '  X0s = {"x1"}', '  Bulks = {"auto", "n1"}', '  Shapes = {"sphere", "needle2"}']
+         '  Grains = {"d1", "d2"}', '  Disls = {"r1"}', '  X0s = {"x1"}', '  Bulks = {"auto", "n1"}', '  Shapes = {"sphere", "needle2"}', "  NPs = {1, 2}",
+         "  Starts <- MCStarts"]
 
 
 def config_part(ctx, prefixes, key):
     from . import cfg_drv as D
     deep = ctx.tier != "quick"
-    cfg = T.write_cfg("modelconfig_mc_" + key, ["SPECIFICATION Spec"] + SMALL + ["  MaxOps = %d" % (4 if not deep else 5), '  Mode = "fixed"',
-                                         "INVARIANT SetupIsCurrent", "INVARIANT AlwaysAdmissible", "PROPERTY NonInterference"])
-    res = run_tlc("ModelConfig", cfg, deadlock=False, timeout=1500)
+    cfg = T.write_cfg("modelconfig_mc_" + key, ["SPECIFICATION Spec"] + SMALL + ["  MaxOps = %d" % (3 if not deep else 4), '  Mode = "fixed"',
+                                         "INVARIANT SetupIsCurrent", "INVARIANT AlwaysAdmissible", "PROPERTY NonInterference", "PROPERTY PhaseIsolation"])
+    res = run_tlc("MC_ModelConfig", cfg, deadlock=False, timeout=1500)
     ctx.add_tlc(res, "ModelConfig.tla: all histories of setters and setups")
     if res.violated:
         ctx.tlc_violation(res, "ModelConfig")
-    cfgv = T.write_cfg("modelconfig_vac_" + key, ["SPECIFICATION Spec"] + SMALL + ["  MaxOps = 3", '  Mode = "stale-gb"', "INVARIANT SetupIsCurrent"])
-    rv = run_tlc("ModelConfig", cfgv, deadlock=False, timeout=600)
+    cfgv = T.write_cfg("modelconfig_vac_" + key, ["SPECIFICATION Spec"] + SMALL + ["  MaxOps = 2", '  Mode = "stale-gb"', "INVARIANT SetupIsCurrent"])
+    rv = run_tlc("MC_ModelConfig", cfgv, deadlock=False, timeout=600)
     if rv.violated != "SetupIsCurrent":
         raise MachineryError("vacuity: a setup that keeps the old grain boundary energy does not violate SetupIsCurrent in ModelConfig.tla")
     rng = random.Random(ctx.seed + 17)
@@ -43,7 +44,7 @@ def config_part(ctx, prefixes, key):
     for (i0, ops, fs), ev, v in zip(hist, traces, reached):
         n = sum(1 for e in ev if e["e"] == "setup")
         ctx.replayed += len(ev) - 1
-        lab = ["config", i0["site"], i0["shape"], fs] + [list(o) for o in ops]
+        lab = ["config", i0["np"], i0["site"], i0["shape"], i0["site2"], fs] + [list(o) for o in ops]
         ctx.case(lab, nontrivial=n > 0, sample={"init": i0, "ops": ops, "events": ev[1:4]} if len(ctx.samples) < 8 else None)
         if v["l"] != len(ev) + 1:
             if ev[-1]["e"] != "exception":
